@@ -813,7 +813,10 @@ impl<'c> Exec<'c> {
         // A complete enumeration of thousands of solutions costs seconds to minutes (every
         // solution adds a blocking clause): beyond 2000 reference solutions the enumeration is cut
         // off there (validity and distinctness are still judged, completeness is not).
-        let max = if self.refm.sols.len() > 2000 { max.min(2000) } else { max };
+        // (with the learned-nogood / explanation oracles every segment of the enumeration is judged
+        // against the solutions still admitted, which is quadratic: the cut-off is lower there)
+        let cut = if self.case.checks.learned || self.case.checks.expl { 300 } else { 2000 };
+        let max = if self.refm.sols.len() > cut { max.min(cut) } else { max };
         // the step budget of an enumeration is per solution: each `next_solution` is a solve of
         // its own and has to make progress within the budget
         let mut clock = FaultClock::new(interrupt, self.case.budget.saturating_mul(4));
